@@ -23,18 +23,28 @@ fn name(r: Result<(), Error>) -> &'static str {
     }
 }
 
-fn replay_one(beh: &Value, base: u64, model_max: u64) -> Result<usize, String> {
+/// model ids >= CLUSTER belong to a second cluster that the embedding moves `far` away (a multiple of 2^32
+/// or more): differences inside a cluster are kept, clusters stay more than a window apart
+const CLUSTER: u64 = 10_000;
+fn emb(base: u64, far: u64, x: u64) -> u64 {
+    if x >= CLUSTER { base + far + (x - CLUSTER) } else { base + x }
+}
+
+fn replay_one(beh: &Value, base: u64, model_max: u64, far: u64) -> Result<usize, String> {
     let steps = beh.as_array().unwrap();
     let is_max = base + model_max == MAXV;
     if !is_max && steps.iter().any(|s| s["id"].as_u64().unwrap() == model_max) {
         return Ok(0);
+    }
+    if steps.iter().any(|s| { let x = s["id"].as_u64().unwrap(); x != model_max && emb(base, far, x) >= MAXV - 1 }) {
+        return Ok(0); // this embedding would leave the id space
     }
     let st = State::new();
     if *st.minimum_unseen_key_id() != 0 {
         return Err("fresh receiver: minimum_unseen_key_id != 0".into());
     }
     for (i, s) in steps.iter().enumerate() {
-        let id = base + s["id"].as_u64().unwrap();
+        let id = if s["id"].as_u64().unwrap() == model_max { base + model_max } else { emb(base, far, s["id"].as_u64().unwrap()) };
         let pre = st.pre_authentication(&creds(id));
         let r = name(st.post_authentication(&creds(id)));
         if r != s["res"].as_str().unwrap() {
@@ -44,7 +54,7 @@ fn replay_one(beh: &Value, base: u64, model_max: u64) -> Result<usize, String> {
             return Err(format!("step {i}: pre_authentication rejected an id that post_authentication accepted"));
         }
         let mu = *st.minimum_unseen_key_id();
-        let exp = (base + s["minunseen"].as_u64().unwrap()).min(MAXV);
+        let exp = emb(base, far, s["minunseen"].as_u64().unwrap()).min(MAXV);
         // before anything is accepted the model says 0 relative to nothing: the code reports 0 too
         let exp = if s["minunseen"].as_u64().unwrap() == 0 { 0 } else { exp };
         if mu != exp {
@@ -57,15 +67,20 @@ fn replay_one(beh: &Value, base: u64, model_max: u64) -> Result<usize, String> {
 pub fn replay(args: &[String]) -> Value {
     let behs = read_behaviours(&args[0]);
     let model_max: u64 = args[1].parse().unwrap();
-    let bases = [0u64, 5, 1 << 31, MAXV - model_max];
+    // (base, distance of the second cluster)
+    let embs: [(u64, u64); 7] = [(0, CLUSTER), (5, CLUSTER), (1 << 31, CLUSTER), (MAXV - model_max, CLUSTER),
+                                 (0, 1 << 32), (3, (1 << 33) + (1 << 32)), (0, (1u64 << 40) + 896)];
     silence_panics();
     let results = par_map(&behs, 12, |idx, b| {
         let mut steps = 0;
         let mut bad = Vec::new();
-        for base in bases {
-            match std::panic::catch_unwind(|| replay_one(b, base, model_max)) {
+        for (base, far) in embs {
+            if far != CLUSTER && b.as_array().unwrap().iter().any(|s| s["id"].as_u64().unwrap() == model_max) {
+                continue;
+            }
+            match std::panic::catch_unwind(|| replay_one(b, base, model_max, far)) {
                 Ok(Ok(n)) => steps += n,
-                Ok(Err(m)) => bad.push(json!({"behaviour": idx, "base": base.to_string(), "what": m, "steps": b})),
+                Ok(Err(m)) => bad.push(json!({"behaviour": idx, "base": base.to_string(), "far": far.to_string(), "what": m, "steps": b})),
                 Err(p) => bad.push(json!({"behaviour": idx, "base": base.to_string(), "what": format!("panic: {}", panic_msg(p)), "steps": b})),
             }
         }
@@ -155,6 +170,40 @@ pub fn record(args: &[String]) -> Value {
             }
         }
         out.emit(json!({"ev": "cend"}));
+    }
+    // ---- long concurrent runs: every thread offers every id of 0..n in ascending order (barrier every 256 ids so
+    // that nobody falls out of the window); each id must be accepted exactly once over all threads
+    let long_n: u64 = (ops as u64 * 25).min(20_000);
+    for run in 0..2 {
+        out.emit(json!({"ev": "reset"}));
+        let st = Arc::new(State::new());
+        let nth = 3 + run;
+        let barrier = Arc::new(std::sync::Barrier::new(nth));
+        let mut handles = Vec::new();
+        for _t in 0..nth {
+            let st = st.clone();
+            let barrier = barrier.clone();
+            handles.push(std::thread::spawn(move || {
+                let mut log = Vec::new();
+                for id in 0..long_n {
+                    if id % 256 == 0 {
+                        barrier.wait();
+                    }
+                    let r = name(st.post_authentication(&creds(id)));
+                    if r == "ok" || id % 64 == 0 {
+                        log.push((id, r));
+                    }
+                }
+                log
+            }));
+        }
+        for (t, h) in handles.into_iter().enumerate() {
+            for (id, r) in h.join().unwrap() {
+                out.emit(json!({"ev": "crecv", "th": t, "id": id, "res": r}));
+                cevents += 1;
+            }
+        }
+        out.emit(json!({"ev": "cend_long", "n": long_n}));
     }
     // ---- concurrent senders through the real map entry (Peer::seal_once)
     let sender = crate::dcmap::sender_runs(&mut out, seed, cruns.min(12), ops.min(300));
